@@ -3,6 +3,7 @@ package tl
 import (
 	"context"
 	"fmt"
+	"os"
 	"strings"
 	"time"
 
@@ -24,6 +25,7 @@ type Engine struct {
 	MaxAcceptEvents int // histories longer than this are tagged M
 	MaxAcceptLanes  int
 	Only            string // replay: run only the scenario with this name
+	progress        string // file that always holds the name of the scenario being run (crash attribution)
 
 	violsByFamily map[string]int
 	aborted       bool
@@ -57,6 +59,9 @@ func (en *Engine) Skip(family, name string) bool {
 func (en *Engine) New(family, name string, n, q int) *Run {
 	en.scenarios++
 	en.families[family]++
+	if en.progress != "" {
+		os.WriteFile(en.progress, []byte(name+"\n"), 0o644)
+	}
 	return NewRun(name, en.ST, n, q)
 }
 
